@@ -317,14 +317,14 @@ package manager
 //@   noframe
 //@   requires mgr != nil && mgr.tags != nil && tag != nil && haskey(mgr.tags, name) && mgr.tags[name] == tag
 //@   requires wfE(mgr.tags) && mirror(mgr.tags)
-//@   loop 12 invariant inj: forall(string, a, 0, inf, forall(string, b, 0, inf, implies(haskey(mgr.tags, a) && haskey(mgr.tags, b) && a != b, mgr.tags[a] != mgr.tags[b])))
-//@   loop 12 invariant maps_ok: forall(string, n, 0, inf, implies(haskey(mgr.tags, n), mgr.tags[n].referencedBy != nil))
-//@   loop 12 invariant own_empty: forall(string, n, 0, inf, !haskey(tag.referencedBy, n))
-//@   loop 12 invariant ren_done: 0 <= rangeindex+1 && forall(k, 0, rangeindex+1, !haskey(mgr.tags[rangeseq[k]].referencedBy, name) && haskey(mgr.tags[rangeseq[k]].referencedBy, info.name))
-//@   loop 12 invariant ren_others: forall(string, r, 0, inf, implies(haskey(mgr.tags, r), \
+//@   loop 13 invariant inj: forall(string, a, 0, inf, forall(string, b, 0, inf, implies(haskey(mgr.tags, a) && haskey(mgr.tags, b) && a != b, mgr.tags[a] != mgr.tags[b])))
+//@   loop 13 invariant maps_ok: forall(string, n, 0, inf, implies(haskey(mgr.tags, n), mgr.tags[n].referencedBy != nil))
+//@   loop 13 invariant own_empty: forall(string, n, 0, inf, !haskey(tag.referencedBy, n))
+//@   loop 13 invariant ren_done: 0 <= rangeindex+1 && forall(k, 0, rangeindex+1, !haskey(mgr.tags[rangeseq[k]].referencedBy, name) && haskey(mgr.tags[rangeseq[k]].referencedBy, info.name))
+//@   loop 13 invariant ren_others: forall(string, r, 0, inf, implies(haskey(mgr.tags, r), \
 //@       forall(string, n, 0, inf, implies(n != name && n != info.name, haskey(mgr.tags[r].referencedBy, n) == (haskey(mgr.tags, n) && isrefp(mgr.tags[n], r))))))
-//@   loop 12 invariant ren_old_sound: forall(string, r, 0, inf, implies(haskey(mgr.tags, r) && haskey(mgr.tags[r].referencedBy, name), isrefp(tag, r)))
-//@   loop 12 invariant ren_new_sound: forall(string, r, 0, inf, implies(haskey(mgr.tags, r) && haskey(mgr.tags[r].referencedBy, info.name), isrefp(tag, r)))
+//@   loop 13 invariant ren_old_sound: forall(string, r, 0, inf, implies(haskey(mgr.tags, r) && haskey(mgr.tags[r].referencedBy, name), isrefp(tag, r)))
+//@   loop 13 invariant ren_new_sound: forall(string, r, 0, inf, implies(haskey(mgr.tags, r) && haskey(mgr.tags[r].referencedBy, info.name), isrefp(tag, r)))
 //@   ensures renamed_wf: wfE(mgr.tags)
 //@   ensures renamed_mirror: mirror(mgr.tags)
 //@   ensures renamed: implies(!haskey(mgr.tags, name), haskey(mgr.tags, info.name) && mgr.tags[info.name] == tag)
